@@ -80,8 +80,8 @@ PROPS = {
         not_decided=["sizes beyond 3x3", "SIMD back-ends"],
     ),
     "C03": dict(
-        units=["G1", "G2", "G3", "G4", "G7", "K1", "K2", "K5", "K6", "K7", "A3", "T1", "G5a", "G5c", "P"],
-        quick_skip=[r"^g5b_", r"^c12_copy_(1x3|3x2|3x3)$", r"^g3_typed_(ref_)?from_buffer_(u8x3|u16x2)$", r"^g8_temp_image_(u16x2|zero)$", r"^k7_u16x1", r"^k8_plan"],
+        units=["G1", "G2", "G3", "G4", "G7", "K1", "K2", "K5", "K6", "K7", "A3", "T1", "G5a", "G5c", "P", "K9"],
+        quick_skip=[r"^k9_(?!u8x3_(sse4|avx2)_(one_row|four_rows)_w2|vertical_(sse4|avx2)_u8x3_w5)", r"^g5b_", r"^c12_copy_(1x3|3x2|3x3)$", r"^g3_typed_(ref_)?from_buffer_(u8x3|u16x2)$", r"^g8_temp_image_(u16x2|zero)$", r"^k7_u16x1", r"^k8_plan"],
         level="proof",
         level_text="C03 is decided as the conjunction of the safety obligations of the units under contract: arithmetic overflow, division "
                    "by zero, array bounds, unwrap, pointer validity of every unchecked access are obligations generated by Verus / CBMC for "
@@ -105,7 +105,7 @@ PROPS = {
                      "kernel == formula when taps AND pixels are symbolic together (SAT does not finish)"],
     ),
     "C10": dict(
-        units=["L1", "W", "K7", "K4"],
+        units=["L1", "W", "K7", "K4", "K9"],
         level="model_checking",
         level_text="The conditional lemma (taps summing to 2^p + e with |e|*max < 2^(p-1) reproduce every uniform value exactly, any window "
                    "length) is PROVED by Verus over the fixed-point formula. Its premise is established on the real taps only for enumerated "
@@ -114,7 +114,7 @@ PROPS = {
         not_decided=["premise for Lanczos3 / Hamming / Gaussian", "premise for geometries beyond the enumerated ones", "float formats", "SIMD back-ends"],
     ),
     "C18": dict(
-        units=["L1", "W", "K7"],
+        units=["L1", "W", "K7", "K9"],
         level="model_checking",
         level_text="Order preservation and no-overshoot for non-negative taps are PROVED by Verus over the fixed-point formula for any window "
                    "length; Box and Bilinear are proved non-negative for every f64. The tie kernel == formula and the partition premise "
@@ -171,16 +171,19 @@ PROPS = {
         not_decided=["dynamic (Image / ImageRef / CroppedImage) vs typed entry point equality as one obligation", "sizes beyond the bounds"],
     ),
     "C02": dict(
-        units=["A7", "A8", "K5"],
+        units=["A7", "A8", "K5", "K9"],
         quick_skip=[r"^a8_.*avx2"],
         level="proof",
-        level_text="Scope: the alpha kernels and the precision dispatch. Every SSE4.1 / AVX2 per-vector alpha function (U8x2, U8x4, U16x2, U16x4: "
+        level_text="Scope: the alpha kernels, the precision dispatch and (bounded) the u8 convolution kernels. The SSE4.1 / AVX2 u8 convolution kernels "
+                   "(vertical u8 generic, u8x4, u8x3, u8x2 horizontal) are compared byte for byte with the portable kernels on concrete tap tables "
+                   "covering every tap stage, remainder and leftover-row branch, for ALL pixel values, with the source rows at the end of their "
+                   "allocations (over-reads are reported) - bounded (K9). Every SSE4.1 / AVX2 per-vector alpha function (U8x2, U8x4, U16x2, U16x4: "
                    "byte-identical to / within the stated bound of the portable function; F32: every lane is the IEEE quotient / product of "
                    "its own pixel) is discharged loop-free over ALL 128/256-bit inputs, modulo the E4 instruction models; row drivers are "
                    "checked bounded for every remainder length; constify_imm8! covers every reachable precision (mechanical).",
         level_note="E4 instruction models are an assumed contract on the hardware, cross-checked on this host by tools/simd_model_selftest.sh at setup. "
-                   "The SIMD CONVOLUTION kernels (all pixel formats), NEON and WASM are NOT under contract: a change there is not detected.",
-        not_decided=["all SSE4.1 / AVX2 convolution kernels (horizontal u8x1..u8x4, u16x1..4, f32x1..4, i32; vertical u8 / u16 / f32)", "NEON and WASM back-ends (not compiled on this host)",
+                   "u8x1, u16 and f32 SIMD convolution kernels, NEON and WASM are NOT under contract: a change there is not detected.",
+        not_decided=["SSE4.1 / AVX2 convolution kernels for u8x1, u16x1..4, f32x1..4 and vertical u16 / f32; u8x2 AVX2 one-row path for windows of >= 16 taps", "u8 kernels: tap tables other than the sampled ones (taps AND pixels symbolic does not finish)", "NEON and WASM back-ends (not compiled on this host)",
                      "CpuExtensions::default() (CPUID)", "rows longer than 2*lanes+1 pixels"],
     ),
 }
